@@ -116,7 +116,7 @@ def all_spec_files():
 
 def run(module, cfg, workers=8, simulate=None, depth=None, env=None, extra=None,
         timeout=1800, dump=None, coverage=False, heap="4g", deadlock=False,
-        seed=None, dfid=None, stagedir=None):
+        seed=None, dfid=None, stagedir=None, env_retry=False):
     """Run TLC on spec/<module>.tla with spec/<cfg> (or generated text in extra)."""
     d = stagedir or stage(all_spec_files(), extra)
     meta = _fresh("meta")
@@ -149,6 +149,11 @@ def run(module, cfg, workers=8, simulate=None, depth=None, env=None, extra=None,
         rc, out = 124, (ex.stdout or b"").decode("utf-8", "replace") if isinstance(ex.stdout, bytes) else (ex.stdout or "")
         out += "\nTIMEOUT"
     res = TlcResult(rc, out, time.time() - t0)
+    if not res.ok and rc != 124 and "Error:" not in out and "violated" not in out and not env_retry:
+        # the JVM did not get as far as a verdict (could not start / was killed under memory pressure): one retry
+        shutil.rmtree(meta, ignore_errors=True)
+        return run(module, cfg, workers=workers, simulate=simulate, depth=depth, env=env, extra=None, timeout=timeout, dump=dump,
+                   coverage=coverage, heap=heap, deadlock=deadlock, seed=seed, dfid=dfid, stagedir=d, env_retry=True)
     res.dir = d
     shutil.rmtree(meta, ignore_errors=True)
     return res
